@@ -27,11 +27,20 @@ if ! cargo build --release --offline >"$ROOT/build.log" 2>&1; then
     git -C /repo worktree remove --force "$ROOT/repo"; rm -rf "$ROOT"; exit 2
 fi
 cp "$TARGET/release/slx-sim" "$ROOT/slx-sim"
+SECOND=""
+case " $CHECKS " in
+    *" C01 "*)
+        # C01 runs half of its cases under the debug-assertions profile, as check.sh does.
+        if cargo build --profile devlike --offline >>"$ROOT/build.log" 2>&1; then
+            cp "$TARGET/devlike/slx-sim" "$ROOT/slx-sim-devlike"; SECOND="$ROOT/slx-sim-devlike"
+        fi
+        ;;
+esac
 for id in $CHECKS; do
-    SLX_OUT_DIR="$ROOT/out" "$ROOT/slx-sim" check "$id" --tier quick >"$ROOT/out/$id.log" 2>&1
+    SLX_OUT_DIR="$ROOT/out" SLX_SECOND_PROFILE_BIN="$SECOND" "$ROOT/slx-sim" check "$id" --tier quick >"$ROOT/out/$id.log" 2>&1
     code=$?
     sig=$(grep -m1 "^  signature:" "$ROOT/out/$id.log" | cut -c1-160)
     echo "$NAME $id exit=$code $(grep "^$id:" "$ROOT/out/$id.log" | sed 's/.*known_findings/known_findings/' | cut -c1-80) $sig"
 done
 git -C /repo worktree remove --force "$ROOT/repo"
-rm -rf "$ROOT/sim" "$ROOT/repo" "$ROOT/slx-sim"
+rm -rf "$ROOT/sim" "$ROOT/repo" "$ROOT/slx-sim" "$ROOT/slx-sim-devlike"
